@@ -18,7 +18,7 @@ import (
 func init() {
 	register(&Check{
 		ID:     "C08",
-		Rule:   "every civil day in the year set at a time of day that rotates through the 26 slot edges by day number (thorough: all days 1..9998 at one rotating time + quick-set years at every 5th slot edge; quick: quick-set years at one rotating time): the object graph {Solar, Lunar, EightChar x sect, Yun x gender x sect, all DaYun, LiuNian/XiaoYun of the first two periods, LiuYue of the first year, LunarTime + GetTimes, NineStars, Tao, Foto, festivals, LunarYear, LunarMonth, JieQi prev/next/current, Fu, ShuJiu, Holiday, SolarWeek x start 0..6, SolarMonth/Season/HalfYear/Year}; every exported zero-argument method found by reflection is called; oracle: no panic, index ranges, vocabulary membership, non-empty strings except a fixed optional list, no duplicate list entries. non-trivial = method calls on objects that only exist conditionally (Fu, ShuJiu, Holiday, current JieQi, festivals) or at 23:xx",
+		Rule:   "every civil day in the year set at a time of day that rotates through the 26 slot edges by day number (thorough: all days 1..9998 at one rotating time + quick-set years at every 5th slot edge; quick: quick-set years at one rotating time): the object graph {Solar, Lunar, EightChar x sect, Yun x gender x sect, all DaYun, LiuNian/XiaoYun of every period (first, last and a rotating entry; entries 0,1 of the first two), LiuYue of the first year of the first two periods and of a rotating one, LunarTime + GetTimes, NineStars, Tao, Foto, festivals, LunarYear, LunarMonth, JieQi prev/next/current, Fu, ShuJiu, Holiday, SolarWeek x start 0..6, SolarMonth/Season/HalfYear/Year}; every exported zero-argument method found by reflection is called; oracle: no panic, index ranges, vocabulary membership, non-empty strings except a fixed optional list, no duplicate list entries. non-trivial = method calls on objects that only exist conditionally (Fu, ShuJiu, Holiday, current JieQi, festivals) or at 23:xx",
 		Assume: []string{"range/vocabulary rules are keyed by accessor-name suffix (GanIndex 0..9, ZhiIndex 0..11, ...InGanZhi in JIA_ZI, ...ShengXiao in SHENG_XIAO, Position* in POSITION_DESC keys, ...)", "optional strings (may be empty): term name of a day without a term, month foetus god in leap months, pillar/xun of great-fortune period 0, NineStar.GetBaMenInQiMen for the centre star, festival remarks/results"},
 		Shards: func(tier string, seed int64) []Shard {
 			return append(narrowShards(tier, seed), Shard{Kind: "tables", Tier: tier, Seed: seed})
@@ -446,8 +446,8 @@ func c08Yun(w *W, visit func(interface{}, string, bool, bool), ec *calendar.Eigh
 	}
 	for i, dy := range dys {
 		visit(dy, fmt.Sprintf("%s DaYun[%d]", ctx, i), i == 0, i == 0)
-		if i > 1 {
-			continue
+		if i > 1 && i%3 != rot%3 {
+			continue // later periods: every third one per state, rotating with the day number (each is reached on a third of all days)
 		}
 		var lns []*calendar.LiuNian
 		var xys []*calendar.XiaoYun
@@ -456,18 +456,25 @@ func c08Yun(w *W, visit func(interface{}, string, bool, bool), ec *calendar.Eigh
 			continue
 		}
 		for k, ln := range lns {
-			if k > 1 && k != rot%10 {
+			// first two periods: entries 0, 1 and a rotating one; every later period: first, last and a rotating entry
+			if i <= 1 && k > 1 && k != rot%10 {
+				continue
+			}
+			if i > 1 && k != 0 && k != len(lns)-1 && k != rot%10 {
 				continue
 			}
 			visit(ln, fmt.Sprintf("%s DaYun[%d].LiuNian[%d]", ctx, i, k), false, false)
-			if k == 0 {
+			if k == 0 && (i <= 1 || i == rot%10) {
 				for q, lyue := range ln.GetLiuYue() {
 					visit(lyue, fmt.Sprintf("%s DaYun[%d].LiuNian[0].LiuYue[%d]", ctx, i, q), false, false)
 				}
 			}
 		}
 		for k, xy := range xys {
-			if k > 1 && k != rot%10 {
+			if i <= 1 && k > 1 && k != rot%10 {
+				continue
+			}
+			if i > 1 && k != 0 && k != len(xys)-1 && k != rot%10 {
 				continue
 			}
 			visit(xy, fmt.Sprintf("%s DaYun[%d].XiaoYun[%d]", ctx, i, k), false, false)
